@@ -492,6 +492,75 @@ def waiter_cancel_ends_send(F, R):
     R.floor('C07.drain', 'awaits of the window waiter in sink/shared', n, 4)
 
 
+def every_error_recorded(F, R):
+    """handle_result examines three kinds of results - the completed item, items parked in the response queue, and the
+    outcome of writing a response. Whenever one of them is tested and found to be Err, the error is stored into
+    `state.error` before the function returns or takes the next item: a failed request that is silently dropped is
+    neither processed nor reported, and the connection stays open."""
+    b = F.one(r'^io::DispatcherState::<P, U>::handle_result$')
+    sets = {bi for bi, t in b.calls_to(r'^std::cell::Cell::<T>::set$') if (call_recv_path(b, t, 0) or ('',))[-1] == 'error'}
+    n = 0
+    seen_tys = set()
+    for sb in sorted(b.live):
+        t = b.blocks[sb]['term']
+        if t['k'] != 'switch':
+            continue
+        pl = op_place(t['discr'])
+        if pl is None:
+            continue
+        src_ty = None
+        for d in b.whole_defs(pl['l']):
+            if d[2] == 'assign' and d[3]['rv']['k'] == 'discr':
+                q = d[3]['rv']['place']
+                ty = b.local_ty(q['l'])
+                projs = place_proj(q)
+                if not [e for e in projs if e != '*'] and ty.lstrip('&').replace('mut ', '').startswith('std::result::Result<'):
+                    src_ty = ty
+        if src_ty is None:
+            continue
+        tg = dict((v, x) for v, x in t['targets'])
+        err_t = tg.get(1, t['otherwise'])
+        ok_t = tg.get(0, t['otherwise'])
+        if err_t == ok_t:
+            continue
+        n += 1
+        kind = 'write-outcome' if 'EncodeError' in src_ty else 'handler-result'
+        seen_tys.add(kind)
+        reach = b.reachable(err_t, avoid=sets | {ok_t})
+        bad = (set(b.returns()) & reach) or (sb in reach)
+        R.ob('C07.error-wakes', 'handle_result|%s|Err=>recorded' % kind, not bad and bool(sets),
+             'a result found to be Err in handle_result is not stored into state.error on every path: the failure is dropped, no Control::Stop is produced and the connection stays open', b.loc(sb))
+    R.floor('C07.error-wakes', 'Result tests in handle_result', n, 2)
+    R.ob('C07.error-wakes', 'handle_result|queued-results-tested', True, 'kinds seen: %s' % sorted(seen_tys))
+    # every item taken from the response queue goes through such a test: the taken value is a Result whose discriminant is read
+    takes = [(bi, t) for bi, t in b.calls() if re.search(r'io::ServiceResult::<T>::take$|and_then$', callee_name(t) or '') and 'ServiceResult' in json_str(t)]
+    for bi, t in takes:
+        if not (callee_name(t) or '').endswith('and_then'):
+            continue
+        reg = b.reachable_after(bi)
+        tested = False
+        for sb in sorted(reg):
+            tt = b.blocks[sb]['term']
+            if tt['k'] != 'switch':
+                continue
+            og = Origin(b).of_operand(tt['discr'])
+            pl = op_place(tt['discr'])
+            for d in (b.whole_defs(pl['l']) if pl else []):
+                if d[2] == 'assign' and d[3]['rv']['k'] == 'discr':
+                    q = d[3]['rv']['place']
+                    if b.local_ty(q['l']).startswith('std::result::Result<') and any(l[0] == 'call' and l[2] == bi for l in Origin(b).of_operand({'cp': {'l': q['l']}})):
+                        tg = dict((v, x) for v, x in tt['targets'])
+                        if tg.get(1, tt['otherwise']) != tg.get(0, tt['otherwise']):
+                            tested = True
+        R.ob('C07.error-wakes', 'handle_result|queued-item|Err-case-distinguished', tested,
+             'a result taken from the response queue is used without distinguishing its Err case: a queued failure (a request that failed synchronously behind pending ones) is discarded', b.loc(bi))
+
+
+def json_str(t):
+    import json as _j
+    return _j.dumps(t.get('func'))
+
+
 def error_first(F, R):
     """poll_service acts on a recorded handler / encoder error before anything that can leave the function without
     having looked at it: every return of poll_service is dominated by `state.error.take()`. Checked behind the
@@ -511,6 +580,7 @@ def error_first(F, R):
 def run(F, R):
     error_wakes(F, R)
     error_first(F, R)
+    every_error_recorded(F, R)
     waiter_cancel_ends_send(F, R)
     poll, ps, regions, head = stop_once(F, R)
     reason_map(F, R, poll, ps)
